@@ -51,6 +51,8 @@ func runPositiveControls() {
 	old := loadMinFuncs
 	loadMinFuncs = 10
 	renameNormalisation = false // the fixture is its own small program, not a renamed goat
+	savedAlias := fieldAlias
+	defer func() { fieldAlias = savedAlias }()
 	p := loadProg(dir, "", "")
 	renameNormalisation = true
 	loadMinFuncs = old
